@@ -12,13 +12,15 @@ git apply $m/patch.diff || { echo "APPLY-FAIL"; exit 1; }
 suite=$(go1.26.8 test -vet=off -count=1 $pkgs 2>&1 | tail -5); suite_rc=$?
 echo "$suite" | grep -q FAIL && suite_rc=1
 cp $m/demo_test.go $pkgdir/zz_seeded_demo_test.go
-demo_with=$(go1.26.8 test -vet=off -count=1 -run 'Seeded|Demo|Mutant' ./$pkgdir/ 2>&1 | tail -3); 
+demo_run=$(python3 -c "import json;print(json.load(open('$m/meta.json'))['demo_run'])")
+demo_with=$(eval "$demo_run" 2>&1 | tail -3); 
 git checkout -q -- . 
-demo_without=$(go1.26.8 test -vet=off -count=1 -run 'Seeded|Demo|Mutant' ./$pkgdir/ 2>&1 | tail -3)
+demo_without=$(eval "$demo_run" 2>&1 | tail -3)
 rm -f $pkgdir/zz_seeded_demo_test.go
 git clean -fdq -e _seeded
 w=FAILS; echo "$demo_with" | grep -q "^ok" && w=PASSES
 wo=FAILS; echo "$demo_without" | grep -q "^ok" && wo=PASSES
+echo "$demo_with $demo_without" | grep -q "no tests to run" && { w=NOTRUN; wo=NOTRUN; }
 echo "$id: suite_with_patch=$([ $suite_rc = 0 ] && echo PASS || echo FAIL) demo_with_patch=$w demo_without_patch=$wo"
 if [ $suite_rc = 0 ] && [ $w = FAILS ] && [ $wo = PASSES ]; then
   mkdir -p /verif/seeded/$id && cp $m/patch.diff $m/demo_test.go /verif/seeded/$id/ 
